@@ -220,7 +220,7 @@ def exc_where(e):
 
 # ------------------------------------------------------------------ driving the real code
 def observe(mm, sem, parser, text, yaml_path=None, arch=None, stages=("uniform", "opt1", "opt2"),
-            e2e=True):
+            e2e=True, e2e_max_lines=80):
     """Run the real pipeline on `text` and return {stage: snapshot | {"error", "where"}}.
     Stages: uniform (after add_semantics), opt1 / opt2 (after one / two calls of
     assign_optimal_throughput), dict-uniform / dict-opt2 (Frontend.full_analysis_dict, i.e. what
@@ -230,6 +230,8 @@ def observe(mm, sem, parser, text, yaml_path=None, arch=None, stages=("uniform",
 
     ports = list(mm.get_ports())
     out = {}
+    if text.count("\n") > e2e_max_lines:
+        e2e = False  # the dictionary needs the dependency graph / LCD search: only for short kernels
 
     def fresh():
         k = parser.parse_file(text)
@@ -462,7 +464,36 @@ def sha(obj):
 PASSES = {"uniform": 0, "dict-uniform": 0, "opt1": 1, "opt2": 2, "dict-opt2": 2}
 
 
-def c01_cases(cid, nports, obs, abs_lines=None, meta=None):
+def _mult_alternatives(alts, mults):
+    """Documented load/store multipliers (zen1) scale the data micro-ops, which are a suffix of
+    the reported micro-op list: offer every (suffix, multiplier) reading as an alternative."""
+    out = list(alts)
+    for alt in alts:
+        for m2 in mults:
+            for k in range(1, len(alt) + 1):
+                out.append([dict(u, m=(m2 if i >= len(alt) - k else u["m"])) for i, u in enumerate(alt)])
+    return out
+
+
+def export_heads(archs):
+    """Plain-YAML read of the model headers: documented multipliers as 2*value (values != 1)."""
+    out = {}
+    for a in archs:
+        p = os.path.join(env.REPO, "osaca", "data", a + ".yml")
+        with open(p) as f:
+            txt = f.read()
+        m = re.search(r"^instruction_forms:", txt, re.M)
+        head = _parse_yaml(txt[:m.start()] if m else txt) or {}
+        vals = set()
+        for key in ("load_throughput_multiplier", "store_throughput_multiplier"):
+            for v in (head.get(key) or {}).values():
+                if isinstance(v, (int, float)) and v != 1 and float(2 * v).is_integer():
+                    vals.add(int(2 * v))
+        out[a] = {"mults": sorted(vals), "ports": [str(x) for x in head.get("ports", [])]}
+    return out
+
+
+def c01_cases(cid, nports, obs, abs_lines=None, meta=None, mults=None):
     """One Trace_Port case (kind c01) per observed snapshot.  With `abs_lines` (synthetic model)
     the micro-op alternatives are the ones the model was rendered from and the reported
     micro-ops go along as `obs`; otherwise the reported micro-ops are the alternatives."""
@@ -478,6 +509,8 @@ def c01_cases(cid, nports, obs, abs_lines=None, meta=None):
                 d["obs"] = ln["alts"]
             else:
                 d["alts"] = ln["alts"]
+                if mults and ln["alts"] and ln["alts"][0]:
+                    d["alts"] = _mult_alternatives(ln["alts"], mults)
             lines.append(d)
         c = {"id": "%s|%s" % (cid, stage), "kind": "c01", "np": nports, "passes": PASSES[stage],
              "lines": lines, "totals": snap["totals"]}
@@ -572,9 +605,10 @@ def observe_many(jobs, workers=16, chunk=40):
             _load_cached(key)
         except Exception:
             pass  # reported per item by the workers
+    # non-daemonic workers (KernelDG may start worker processes of its own for long kernels)
     ctx = multiprocessing.get_context("fork")
-    with ctx.Pool(min(workers, len(split))) as pool:
-        for part in pool.imap_unordered(_observe_job, split):
+    with concurrent.futures.ProcessPoolExecutor(min(workers, len(split)), mp_context=ctx) as pool:
+        for part in pool.map(_observe_job, split):
             for cid, o in part:
                 res[cid] = o
     return res
@@ -730,3 +764,164 @@ def plain(v):
     if isinstance(v, float):
         return float(v)
     return str(v)
+
+
+# ------------------------------------------------------------------ observation campaigns shared by C01 / C02
+def synthetic_campaign(seed, n_models, n_kernels, tag, e2e=True, maxlen=8):
+    """Seeded random port models x random kernels through the real pipeline.
+    Returns list of dicts {cid, np, obs, abs (lines by construction), model, kernel, text}."""
+    rnd = random.Random(seed)
+    d = env.scratch(tag)
+    jobs, info = [], {}
+    for mi in range(n_models):
+        model = random_model(rnd)
+        styles = {k: rnd.choice(["str", "list"]) for k in range(len(model["forms"]))}
+        path = render_model(os.path.join(d, "m%d.yml" % mi), model, styles)
+        items = []
+        for ki in range(n_kernels):
+            kern = random_kernel(rnd, model, maxlen=maxlen)
+            # keep the number of alternative combinations small (TLC enumerates them)
+            while _alt_product(model, kern) > 64:
+                kern = random_kernel(rnd, model, maxlen=maxlen)
+            cid = "s%d.m%d.k%d" % (seed, mi, ki)
+            text = render_kernel(kern)
+            items.append((cid, text))
+            info[cid] = {"cid": cid, "np": len(model["ports"]), "abs": abstract_lines(model, kern),
+                         "model": model, "kernel": kern, "text": text, "yaml": path}
+        jobs.append((("yaml", path), items, {"e2e": e2e}))
+    obs = observe_many(jobs)
+    out = []
+    for cid, rec in info.items():
+        rec["obs"] = obs[cid]
+        out.append(rec)
+    return out
+
+
+def _alt_product(model, kern):
+    n = 1
+    for it in kern:
+        if isinstance(it, int):
+            n *= len(model["forms"][it]["alts"])
+    return n
+
+
+def kernel_text(path, isa):
+    """The marked kernel of a corpus file (whole file if unmarked) as text, using OSACA's own
+    marker detection as a driver (C11 checks it)."""
+    from osaca.parser import ParserAArch64, ParserX86ATT
+    from osaca.semantics import reduce_to_section
+
+    with open(path) as f:
+        code = f.read()
+    parser = ParserX86ATT() if isa == "x86" else ParserAArch64()
+    parsed = parser.parse_file(code)
+    kern = reduce_to_section(parsed, isa)
+    return "\n".join(ln.line for ln in kern) + "\n"
+
+
+def shipped_campaign(archs, tag, extra_kernels=None, e2e=True):
+    """Shipped models x shipped example / test kernels.  Returns records as synthetic_campaign
+    (abs = None: the reported micro-ops are the reference)."""
+    env.warm_models(archs)
+    jobs, info = [], {}
+    texts = {}
+    for isa in ("x86", "aarch64"):
+        for f in corpus_files(isa):
+            try:
+                texts[(isa, f)] = kernel_text(f, isa)
+            except Exception:
+                continue
+    for arch in archs:
+        isa = "x86" if arch in env.X86_ARCHS else "aarch64"
+        items = []
+        for (i, f), text in texts.items():
+            if i != isa:
+                continue
+            cid = "%s:%s" % (arch, os.path.basename(f))
+            items.append((cid, text))
+            info[cid] = {"cid": cid, "arch": arch, "text": text, "file": f}
+        for name, text in (extra_kernels or {}).get(arch, []):
+            cid = "%s:%s" % (arch, name)
+            items.append((cid, text))
+            info[cid] = {"cid": cid, "arch": arch, "text": text, "file": name}
+        jobs.append((("arch", arch), items, {"e2e": e2e}))
+    obs = observe_many(jobs, chunk=8)
+    out = []
+    for cid, rec in info.items():
+        rec["obs"] = obs[cid]
+        rec["abs"] = None
+        u = rec["obs"].get("uniform")
+        rec["np"] = len(u["totals"]) if u and "totals" in u else 0
+        out.append(rec)
+    return out
+
+
+def kernel_features(lines):
+    """Witness class of a kernel (lines: [{"tp", "alts"}])."""
+    f = set()
+    if not any(ln["tp"] for ln in lines):
+        f.add("nosum")
+    for ln in lines:
+        f |= line_features(ln["alts"])
+    return f
+
+
+def fclass(f):
+    return "+".join(sorted(f)) or "plain"
+
+
+# ------------------------------------------------------------------ the real CLI on a synthetic model
+def cli_home(tag, model, arch="zen1"):
+    """A private HOME whose ~/.osaca/data/<arch>.yml is the rendered synthetic model, so that
+    `osaca --arch <arch>` analyses with it (user data directory takes precedence)."""
+    home = env.sandbox_home(fresh=True, tag=tag)
+    target = os.path.join(home, ".osaca", "data", arch + ".yml")
+    if os.path.lexists(target):
+        os.unlink(target)
+    render_model(target, model)
+    return home
+
+
+_NUM = re.compile(r"-?\d+\.\d+")
+
+
+def parse_cli_totals(out, nports):
+    """Totals row of the combined report: the line of numbers after the table."""
+    if "Combined Analysis Report" not in out:
+        return None
+    body = out.split("Combined Analysis Report", 1)[1].split("Loop-Carried Dependencies", 1)[0]
+    rows = [ln for ln in body.splitlines() if ln.strip() and "|" not in ln and _NUM.search(ln)
+            and not ln.strip().startswith("-")]
+    if not rows:
+        return None
+    nums = _NUM.findall(rows[-1])
+    if len(nums) < nports:
+        return None
+    return [units(float(x)) for x in nums[:nports]]
+
+
+def cli_many(home, arch, items, nports, flags=(), workers=16):
+    """items: [(cid, kernel text)] -> {cid: totals | {"error"}} through `osaca --arch`."""
+    d = env.scratch("cli-" + os.path.basename(home))
+
+    def one(it):
+        cid, text = it
+        f = os.path.join(d, cid.replace("/", "_") + ".s")
+        with open(f, "w") as fh:
+            fh.write(text)
+        rc, out, err = env.run_cli(["--arch", arch] + list(flags) + [f], home=home, timeout=300)
+        os.unlink(f)
+        if rc != 0:
+            return cid, {"error": (err.strip().splitlines() or ["rc=%d" % rc])[-1][:300]}
+        t = parse_cli_totals(out, nports)
+        return cid, (t if t is not None else {"error": "no totals row in the report"})
+
+    if not items:
+        return {}
+    first = one(items[0])  # writes the model's cache pickle before the parallel runs
+    import multiprocessing.pool
+
+    with multiprocessing.pool.ThreadPool(workers) as tp:
+        res = dict(tp.map(one, items[1:]))
+    res[first[0]] = first[1]
+    return res
